@@ -1,4 +1,6 @@
 import Hv.Props.C01
+import Hv.Storage.BlockAssumptions
+import Hv.Storage.BlockView
 import Hv.Generated.FactsC01
 
 namespace Hv.C01
@@ -37,6 +39,12 @@ theorem verdict : (classify Generated.factsC01).Sound (Holds (cfgOf Generated.fa
 #print axioms not_holds_of_silentDrop
 #print axioms not_holds_of_apiAcceptsLongName
 #print axioms inserts_roundtrip
+#print axioms rewrite_preserves_index
+#print axioms compaction_preserves_index
+#print axioms load_replays
+#print axioms Hv.Storage.blockLevelAssumptions_hold
+#print axioms Hv.Storage.load_agrees
+#print axioms Hv.Storage.writer_load_agrees
 #print axioms classify_sound
 
 end Hv.C01
